@@ -22,7 +22,7 @@ DEFAULT_PROFILE = dict(
     types=[("bool", 14), ("int", 8), ("int8", 3), ("int16", 2), ("int32", 2), ("int64", 3), ("uint", 3), ("uint8", 3), ("uint16", 1),
            ("uint32", 1), ("uint64", 2), ("float32", 2), ("float64", 3), ("string", 14), ("duration", 3), ("custom", 3),
            ("ptr", 6), ("slice", 10), ("map", 6), ("func", 6)],
-    p_dup=0.0, p_bad_tag=0.0, p_long_short=0.0, p_bool_default=0.0, p_bool_choice=0.03,
+    p_bad_default=0.05, p_plain_mapkey=0.7, p_dup=0.0, p_bad_tag=0.0, p_long_short=0.0, p_bool_default=0.0, p_bool_choice=0.03,
 )
 
 
@@ -69,6 +69,7 @@ class Gen:
         self.fid = 0
         self.sid = 0
         self.init = {}
+        self.used_gdesc = set()
         self.used_long = set()
         self.used_short = set()
         self.fname = 0
@@ -110,7 +111,7 @@ class Gen:
             else: n = r.randint(lo, hi)
             if 2 <= base <= 36:
                 t = fmt_base(n, base)
-                if r.random() < 0.1 and n >= 0: t = "+" + t
+                if r.random() < 0.1 and n >= 0 and not kind.startswith("u"): t = "+" + t
                 if r.random() < 0.1: t = t.replace("-", "-0") if n < 0 else "0" + t
                 return t.encode()
             if base == 0:
@@ -135,11 +136,21 @@ class Gen:
         if t[0] == "slice": return self.value_text(t[1], base, valid)
         if t[0] == "map":
             kt = self.scalar_text(t[1], base, True)
+            if t[1] in ("string", "custom") and self.chance("p_plain_mapkey"):
+                kt = strgen.rstr(r, 5, p_bad=0) or b"k"
             if t[1] in ("string", "custom"):
-                kt = kt.replace(b":", b"") or b"k"
+                # keys the key:value syntax can express: non-empty, no ':', no surrounding white space, no leading quote
+                kt = kt.replace(b":", b"")
+                try:
+                    kt = kt.decode("utf-8").strip().encode("utf-8")
+                except UnicodeDecodeError:
+                    kt = kt.strip()
+                kt = kt.lstrip(b'"') or b"k"
+                if t[1] == "custom":
+                    kt = kt.lstrip(b"!").rstrip(b'"') or b"k"
             vt = self.scalar_text(t[2], base, valid)
             x = r.random()
-            if x < 0.06: return kt            # no colon: empty value
+            if x < 0.06 and (t[2] in ("string", "bool", "custom") or not valid): return kt            # no colon: empty value
             return kt + b":" + vt
         if t[0] == "func": return self.scalar_text(t[1], base, valid) if t[1] else b""
         raise ValueError(t)
@@ -153,7 +164,7 @@ class Gen:
                 return ("i", r.choice([0, 1, hi, lo, 7, 42 if hi >= 42 else 3]))
             if kind == "duration": return ("i", r.choice([0, 10 ** 9, 90 * 10 ** 9, -5]))
             if kind in ("float32", "float64"): return ("f", r.choice([b"0", b"1.5", b"-2", b"0.25"]))
-            if kind == "custom": return ("s", r.choice([b"", b"u:x", b"raw"]))
+            if kind == "custom": return ("s", r.choice([b"", b"x", b"raw"]))
             return ("s", r.choice([b"", b"init", b"a b", "é".encode()]))
         if t[0] == "k": return sv(t[1])
         if t[0] == "ptr": return ("p", None if r.random() < 0.5 else sv(t[1]))
@@ -245,7 +256,7 @@ class Gen:
         if (not isbool or self.chance("p_bool_default")) and self.chance("p_default"):
             n = r.randint(1, 2) if t[0] in ("slice", "map") else 1
             for _ in range(n):
-                d = r.choice(info["choices"]) if info["choices"] else self.value_text(t, base, valid=r.random() > 0.05)
+                d = r.choice(info["choices"]) if info["choices"] else self.value_text(t, base, valid=not self.chance("p_bad_default"))
                 info["defaults"].append(d)
                 kvs.append((b"default", d))
         if self.chance("p_required"):
@@ -271,7 +282,7 @@ class Gen:
             kvs.append((b"hidden", v)); info["hidden"] = v != b"false"
         if self.chance("p_valname"): kvs.append((b"value-name", r.choice([b"FILE", b"N", "WERT".encode(), "名".encode()])))
         if self.chance("p_mask"): kvs.append((b"default-mask", r.choice([b"-", b"****", b"<secret>"])))
-        if self.chance("p_ininame"): kvs.append((b"ini-name", r.choice([b"ini_a", b"IniB", b"other"])))
+        if self.chance("p_ininame"): kvs.append((b"ini-name", r.choice([b"ini_a", b"IniB", b"other"]) + str(fid).encode()))
         if self.chance("p_noini"): kvs.append((b"no-ini", b"true"))
         if self.chance("p_unquote_false"):
             kvs.append((b"unquote", b"false")); info["unquote"] = False
@@ -307,7 +318,7 @@ class Gen:
             self.init[self.fid] = self.init_value(t)
         return f
 
-    def gen_fields(self, scope, node, depth, in_group=False, ns=(), envns=(), gdesc=None):
+    def gen_fields(self, scope, node, depth, in_group=False, ns=(), envns=(), gdesc=None, ghidden=False):
         """fields of one struct; node collects option infos / positionals / commands for argv generation"""
         r = self.rng
         fields = []
@@ -328,6 +339,7 @@ class Gen:
                 info["ns"] = ns
                 info["envns"] = envns
                 info["gdesc"] = gdesc
+                info["ghidden"] = ghidden
                 node["opts"].append(info)
                 fields.append(f)
         # nested group
@@ -337,6 +349,9 @@ class Gen:
             sid = self.sid
             gname = self.fname
             subdesc = r.choice([b"Sub Group", b"Extra Options", b"More", "Gruppe é".encode()])
+            if subdesc.lower() in self.used_gdesc and not self.chance("p_dup"):
+                subdesc = subdesc + b" " + str(sid).encode()
+            self.used_gdesc.add(subdesc.lower())
             kv = [(b"group", subdesc)]
             gns = ()
             gens = ()
@@ -346,11 +361,12 @@ class Gen:
             if r.random() < 0.3:
                 n = r.choice([b"SUB", b"DB"])
                 kv.append((b"env-namespace", n)); gens = (n,)
-            if r.random() < 0.1: kv.append((b"hidden", b"yes"))
+            sub_hidden = r.random() < 0.1
+            if sub_hidden: kv.append((b"hidden", b"yes"))
             if r.random() < 0.3: kv.append((b"description", b"Group long description"))
             ptr = self.chance("p_ptr_group")
             isnil = ptr and self.chance("p_nil_ptr")
-            sub = self.gen_fields(scope, node, depth + 1, True, ns + gns, envns + gens, subdesc)
+            sub = self.gen_fields(scope, node, depth + 1, True, ns + gns, envns + gens, subdesc, sub_hidden)
             if isnil: self.defunc(sub, node)
             fields.append({"name": ("G%d" % gname).encode(), "exported": True, "tag": self.tag_of(kv),
                            "struct": {"ptr": ptr, "nil": isnil, "fields": sub, "sid": sid}})
@@ -360,7 +376,7 @@ class Gen:
             mysid, myname = self.sid, self.fname
             ptr = r.random() < 0.5
             isnil = ptr and r.random() < 0.5
-            sub = self.gen_fields(scope, node, depth + 1, in_group, ns, envns, gdesc)
+            sub = self.gen_fields(scope, node, depth + 1, in_group, ns, envns, gdesc, ghidden)
             if isnil: self.defunc(sub, node)
             fields.append({"name": ("N%d" % myname).encode(), "exported": True, "tag": b"",
                            "struct": {"ptr": ptr, "nil": isnil, "fields": sub, "sid": mysid}})
@@ -493,9 +509,10 @@ class Gen:
             scope = {"long": set(), "short": set()}
             ns = r.choice([b"", b"", b"grp"])
             gshort = r.choice([b"Extra", b"Added Group"])
-            fields = self.gen_fields(scope, node_g, 1, True, (ns,) if ns else (), (), gshort)
+            ghid = r.random() < 0.1
+            fields = self.gen_fields(scope, node_g, 1, True, (ns,) if ns else (), (), gshort, ghid)
             attach.append({"kind": "group", "path": [], "short": gshort, "long": b"", "fields": fields,
-                           "ns": ns, "envns": r.choice([b"", b"EX"]), "hidden": r.random() < 0.1})
+                           "ns": ns, "envns": r.choice([b"", b"EX"]), "hidden": ghid})
             if attach[-1]["envns"]:
                 for o in node_g["opts"]:
                     pass
